@@ -120,7 +120,7 @@ def cmd_check(a):
                 do_diff = True
                 want = max(want, 400)
             witness = None
-            if do_diff and sym_ not in plain_functions and (e is None or not e.startswith("spec_")):
+            if do_diff and sym_ in KI.symbols and sym_ not in plain_functions and (e is None or not e.startswith("spec_")):
                 witness, cases, why = check.find_witness(sym_, seed, want=want, runner=runner,
                                                          candidates=[o.get("model_input") for o in refuted])
                 if why is None:
